@@ -206,7 +206,7 @@ class Filtration(SimplicialComplex):
             return ind
         else:
             # move to the earlier index
-            self._index = inds[ind - 1]
+            self._index = inds[i - 1]
             return self._index
 
     def setMinimumIndex(self):
@@ -227,7 +227,7 @@ class Filtration(SimplicialComplex):
             return ind
         else:
             # move to the next index
-            self._index = inds[ind + 1]
+            self._index = inds[i + 1]
             return self._index
 
     def setMaximumIndex(self):
